@@ -102,6 +102,19 @@ def build():
             "forall(lambda k=Key: (k in result) == covers(L, len(L), k))",          # exactly the keys of the merged view
         ],
         modifies=[], props=["C19"])))
+    # ---- which supplied layers take part: every layer that is not None - an EMPTY layer too (its owner may fill it later)
+    OL = "Seq[Opt[Dict[Key,Val]]]"
+    cs.append(reg.add(Contract(
+        LM + "__filter_layers", params={"layers": OL}, returns=LAYERS, no_monitor=True, raises={},
+        ensures=[
+            "len(result) <= len(layers)",
+            # every layer of the result is one of the supplied non-None layers ...
+            "forall(lambda k: implies(0 <= k and k < len(result), exists(lambda p: 0 <= p and p < len(layers) and layers[p] is not None and result[k] == the(layers[p]))))",
+            # ... every supplied layer that is not None is kept, whatever it holds, and supplied order is preserved
+            "forall(lambda p: implies(0 <= p and p < len(layers) and layers[p] is not None, exists(lambda k: 0 <= k and k < len(result) and result[k] == the(layers[p]))))",
+            "forall(lambda p, q: implies(0 <= p and p < q and q < len(layers) and layers[p] is not None and layers[q] is not None, "
+            "exists(lambda k, l: 0 <= k and k < l and l < len(result) and result[k] == the(layers[p]) and result[l] == the(layers[q]))))",
+        ], spec_env={"the": lambda e, a, k, n, s: V(a[0].ty.t, a[0].ty.sort().v(a[0].t))}, modifies=[], props=["C19"])))
     return reg, cs
 
 
